@@ -41,14 +41,28 @@ def mutate(rng, spec):
         c = ["BSgate", list(rng.choice(SPECIAL_BS)), [a, b], False]
         cm.insert(rng.randint(0, len(cm)), c)
         spec["cmds"].insert(cm.index(c), copy.deepcopy(c))
-    kinds = ["same", "prefix", "extend", "dagger", "param", "modes", "class", "swap", "relabel", "dropmid"]
+    # a post-selected measurement somewhere (its select value is not in op.p: both comparisons must still see it)
+    if rng.random() < 0.3:
+        c = sfgen.random_cmd(rng, q["n"], list(sfgen.MEASURE_SEL), 0.0)
+        pos = rng.randint(0, len(cm))
+        cm.insert(pos, c)
+        spec["cmds"].insert(pos, copy.deepcopy(c))
+    kinds = ["same", "prefix", "extend", "dagger", "param", "modes", "class", "swap", "relabel", "dropmid", "select"]
     kind = rng.choice(kinds)
+    if kind == "select":
+        idx = [i for i, c in enumerate(cm) if c[0] in sfgen.MEASURE_SEL]
+        if not idx:
+            kind = "same"
+        else:
+            i = rng.choice(idx)
+            cm[i][1][-1] = cm[i][1][-1] + rng.choice([0.5, -0.3, 1e-3])
+        return kind, q
     if kind == "prefix" and cm:
         del cm[rng.randrange(len(cm)):]
     elif kind == "extend":
         cm.append(sfgen.random_cmd(rng, q["n"], list(sfgen.GAUSSIAN_GATES)))
-    elif kind == "dagger" and cm:
-        i = rng.randrange(len(cm))
+    elif kind == "dagger" and [c for c in cm if c[0] in sfgen.GAUSSIAN_GATES]:
+        i = rng.choice([k for k, c in enumerate(cm) if c[0] in sfgen.GAUSSIAN_GATES])  # only gates have an inverse form
         cm[i][3] = not cm[i][3]
     elif kind == "param" and cm:
         idx = [i for i, c in enumerate(cm) if c[1]]
@@ -100,16 +114,27 @@ def mutate(rng, spec):
 def enc_prog(spec, pid):
     def enc_cmd(c):
         name, params, modes, dag = c
-        return "mkCmd %d %s %s %s" % (
+        opts = []
+        if name == "MeasureHomodyneSel":      # MeasureHomodyne(phi, select=v): p = [phi], option select
+            params, opts = params[:1], [pid(("select", params[1]))]
+        elif name == "MeasureHeterodyneSel":  # MeasureHeterodyne(select=re + i im): p = [], option select
+            params, opts = [], [pid(("select", params[0], params[1]))]
+        return "mkCmd %d %s %s %s %s" % (
             NAMES.index(name), coq.coq_list([pid(p) for p in params], coq.coq_Z),
-            coq.coq_list(modes, str), coq.coq_bool(dag))
+            coq.coq_list(modes, str), coq.coq_bool(dag), coq.coq_list(opts, coq.coq_Z))
     reg = coq.coq_list(["(%d, true)" % i for i in range(spec["n"])])
     return "(mkProg None %s %s)" % (reg, coq.coq_list([enc_cmd(c) for c in spec["cmds"]], lambda s: "(%s)" % s))
 
 
 def same_state(p, q):
+    meas = any(c[0] in sfgen.MEASURE_SEL for c in p["cmds"] + q["cmds"])
     try:
-        return sfgen.states_close(sfgen.run_gaussian(p), sfgen.run_gaussian(q))
+        # post-selected homodyne draws the conjugate quadrature from numpy's global generator and uses a finitely squeezed projector
+        np.random.seed(4321)
+        a = sfgen.run_gaussian(p)
+        np.random.seed(4321)
+        b = sfgen.run_gaussian(q)
+        return sfgen.states_close(a, b, 1e-5 if meas else 1e-8)
     except Exception:
         return None
 
@@ -211,6 +236,8 @@ def search(ctx):
     """Random pairs, plus a sweep over two-mode gates at the parameter values the equivalence test treats specially:
     the same program with the gate's modes reversed must not be reported equivalent unless the states agree."""
     _search_random(ctx)
+    search_feedforward(ctx)
+    search_registers(ctx)
     rng = ctx.rng
     specials = [["BSgate", p_] for p_ in SPECIAL_BS] + [["CXgate", [0.0]], ["CXgate", [0.4]], ["MZgate", [0.3, 0.2]], ["S2gate", [0.3, 0.1]], ["CZgate", [0.3]]]
     for name, params in specials:
@@ -232,9 +259,258 @@ def search(ctx):
                 ctx.counterexample("equiv:modes-order", "equivalence reports True although %s%s acts on reversed modes and the states differ" % (name, params), data)
 
 
+# ---- feed-forward programs: measurements (post-selected, so deterministic), re-preparations, gates fed by outcomes, deletions ----------
+def ff_program(rng):
+    """A valid program in which modes are measured (possibly twice, with different selected outcomes), re-prepared, used as
+    controls of gates on other modes, and possibly deleted at the end."""
+    n = rng.randint(2, 3)
+    cmds = [["Squeezed", [round(rng.uniform(0.2, 0.5), 3), 0.0], [m], False] for m in range(n)]
+    if n >= 2:
+        cmds.append(["BSgate", [0.5, 0.2], [0, n - 1], False])
+    measured = {}
+    if rng.random() < 0.5:
+        # a control mode measured twice with different selected outcomes, gates fed by it in between and after
+        ctl = rng.randrange(n)
+        others = [x for x in range(n) if x != ctl]
+        for val in (round(rng.uniform(0.2, 0.8), 2), -round(rng.uniform(0.2, 0.8), 2)):
+            cmds.append(["MeasureHomodyneSel", [0.0, val], [ctl], False])
+            measured[ctl] = val
+            for _ in range(rng.randint(0, 2)):
+                cmds.append([rng.choice(["Xgate", "Zgate"]), [{"par": ctl, "mul": rng.choice([1.0, 0.5])}], [rng.choice(others)], False])
+            if rng.random() < 0.7:
+                cmds.append(["Squeezed", [round(rng.uniform(0.2, 0.5), 3), 0.0], [ctl], False])
+    for _ in range(rng.randint(1, 5)):
+        r = rng.random()
+        m = rng.randrange(n)
+        if r < 0.35:
+            val = round(rng.uniform(-0.8, 0.8), 2)
+            cmds.append(["MeasureHomodyneSel", [rng.choice([0.0, math.pi / 2]), val], [m], False])
+            measured[m] = val
+        elif r < 0.5 and m in measured:
+            cmds.append(["Squeezed", [round(rng.uniform(0.2, 0.5), 3), 0.0], [m], False])
+        elif r < 0.85 and measured:
+            ctl = rng.choice(sorted(measured))
+            tgt = rng.choice([x for x in range(n) if x != ctl])
+            cmds.append([rng.choice(["Xgate", "Zgate", "Rgate"]), [{"par": ctl, "mul": rng.choice([1.0, 0.5, -1.0])}], [tgt], False])
+        else:
+            cmds.append(sfgen.random_cmd(rng, n, ["Rgate", "Sgate", "Dgate", "BSgate"], 0.0))
+    dels = [m for m in sorted(measured) if rng.random() < 0.5][: n - 1]
+    cmds += [["Del", [], [m], False] for m in dels]
+    return {"n": n, "cmds": cmds}
+
+
+def ff_valid(spec):
+    """front-end validity of a command order: a measured parameter needs an earlier measurement, nothing after Del on that mode"""
+    measured, dead = set(), set()
+    for name, params, modes, _ in spec["cmds"]:
+        if set(modes) & dead:
+            return False
+        for p in params:
+            if isinstance(p, dict) and "par" in p and (p["par"] not in measured or p["par"] in dead):
+                return False
+        if name.startswith("Measure"):
+            measured.update(modes)
+        if name == "Del":
+            dead.update(modes)
+    return True
+
+
+def ff_variant(rng, spec):
+    """Another valid ORDER of the same commands (not necessarily dependency-respecting): move one command somewhere else;
+    half of the time a gate fed by a measurement outcome is moved across another measurement of its controlling mode."""
+    cm0 = spec["cmds"]
+    if rng.random() < 0.5:
+        ffs = [i for i, c in enumerate(cm0) if any(isinstance(x, dict) and "par" in x for x in c[1])]
+        rng.shuffle(ffs)
+        for i in ffs:
+            ctl = [x["par"] for x in cm0[i][1] if isinstance(x, dict)][0]
+            targets = [j for j, c in enumerate(cm0) if c[0].startswith("Measure") and ctl in c[2]]
+            rng.shuffle(targets)
+            for j in targets:
+                q = copy.deepcopy(spec)
+                c = q["cmds"].pop(i)
+                # re-insert right after (if it was before) or right before (if it was after) that measurement
+                q["cmds"].insert(j if i < j else j, c) if i > j else q["cmds"].insert(j, c)
+                if q["cmds"] != cm0 and ff_valid(q):
+                    return q
+    for _ in range(30):
+        q = copy.deepcopy(spec)
+        cm = q["cmds"]
+        i = rng.randrange(len(cm))
+        c = cm.pop(i)
+        j = rng.randrange(len(cm) + 1)
+        cm.insert(j, c)
+        if j != i and ff_valid(q):
+            return q
+    return None
+
+
+def run_ff(spec):
+    np.random.seed(12345)  # the conjugate quadrature of a post-selected homodyne is drawn from numpy's global generator
+    return sfgen.run_gaussian(spec)
+
+
+def ff_judge(p, q):
+    """Run both programs (so that measured parameters have values and the default, parameter-comparing equivalence test applies),
+    then ask == and equivalence.  -> ("ok", p~q, q~p, p==q, states differ) or ("raises", kind, text).  A ParameterError of the
+    comparison itself means "no claim" (None)."""
+    import strawberryfields as sf
+    from strawberryfields.parameters import ParameterError
+    P, Q = sfgen.build_program(p), sfgen.build_program(q)
+    try:
+        np.random.seed(12345)
+        sa = sf.Engine("gaussian").run(P).state
+        np.random.seed(12345)
+        sb = sf.Engine("gaussian").run(Q).state
+    except Exception as e:
+        return ("raises", "run:" + type(e).__name__, repr(e))
+    differ = not sfgen.states_close((np.array(sa.means()), np.array(sa.cov())), (np.array(sb.means()), np.array(sb.cov())), 1e-6)
+    out = []
+    for X, Y in ((P, Q), (Q, P)):
+        try:
+            out.append(bool(X.equivalence(Y)))
+        except ParameterError:
+            out.append(None)
+        except Exception as e:
+            return ("raises", type(e).__name__, repr(e))
+    try:
+        eq = bool(P == Q)
+    except Exception as e:
+        return ("raises", "eq:" + type(e).__name__, repr(e))
+    return ("ok", out[0], out[1], eq, differ)
+
+
+def search_feedforward(ctx):
+    """reported equivalent / equal  =>  same state, on programs with measurements, feed-forward, re-preparation and deletions;
+    a re-ordering that keeps every wire's sequence (adjacent independent commands swapped) must stay equivalent."""
+    rng = ctx.rng
+    for _ in range(ctx.budget(150, 1500)):
+        p = ff_program(rng)
+        q = ff_variant(rng, p)
+        if q is None:
+            continue
+        data = {"check": "ff", "p": p, "q": q}
+        r = ff_judge(p, q)
+        if r[0] == "raises":
+            ctx.counterexample("equiv:ff:raises:" + r[1], "equivalence / == raised on feed-forward programs: " + r[2], data)
+            continue
+        _, e1, e2, eq, differ = r
+        has_del = any(c[0] == "Del" for c in p["cmds"])
+        ctx.case({"p": p, "q": q, "equiv": e1}, nontrivial=True, bucket="ff-%s-%s" % ("del" if has_del else "nodel", "equiv" if e1 else "inequiv" if e1 is not None else "nocomparison"))
+        if e1 is not None and e2 is not None and e1 != e2:
+            ctx.counterexample("equiv:ff:asymmetric", "equivalence is not symmetric on feed-forward programs", data)
+        if e1 or e2 or eq:
+            if differ:
+                what = "measured-control-of-deleted-mode" if has_del else "measured-control"
+                ctx.counterexample("equiv:ff:%s" % what, "programs reported %s compute different states (same commands, one moved across a command it depends on)" % ("equal" if eq else "equivalent"), data)
+
+
+# ---- registers: second segments built on a parent that deleted modes ---------------------------------------------------------------------
+def build_child(spec):
+    """spec: n0 modes, `deleted` removed by a parent program, commands of the child on the surviving indices."""
+    import strawberryfields as sf
+    from strawberryfields import ops
+    parent = sf.Program(spec["n0"])
+    with parent.context as q:
+        for d in spec["deleted"]:
+            ops.Del | q[d]
+    child = sf.Program(parent)
+    with child.context as q:
+        regs = {r.ind: r for r in q}
+        for name, params, modes, dag in spec["cmds"]:
+            sfgen.make_op(name, params, dag) | tuple(regs[m] for m in modes)
+    return parent, child
+
+
+def run_child(spec):
+    import strawberryfields as sf
+    parent, child = build_child(spec)
+    eng = sf.Engine("gaussian")
+    eng.run(parent)
+    st = eng.run(child).state
+    return np.array(st.means()), np.array(st.cov())
+
+
+def search_registers(ctx):
+    """== must see WHICH subsystems a program acts on: the same command list on registers with different surviving indices
+    (after a parent segment deleted modes) is a different computation."""
+    rng = ctx.rng
+    cases = []
+    for _ in range(ctx.budget(60, 600)):
+        n0 = rng.randint(3, 5)
+        k = rng.randint(1, n0 - 2)
+        d1 = sorted(rng.sample(range(n0), k))
+        d2 = sorted(rng.sample(range(n0), k)) if rng.random() < 0.8 else d1
+        common = [m for m in range(n0) if m not in d1 and m not in d2]
+        if len(common) < 1:
+            continue
+        cmds = []
+        for _ in range(rng.randint(1, 4)):
+            c = sfgen.random_cmd(rng, len(common), [x for x in sfgen.GAUSSIAN_GATES], 0.2)
+            c[2] = [common[m] for m in c[2]]
+            cmds.append(c)
+        cases.append(({"n0": n0, "deleted": d1, "cmds": cmds}, {"n0": n0, "deleted": d2, "cmds": copy.deepcopy(cmds)}))
+    impl = []
+    for p, q in cases:
+        data = {"check": "reg", "p": p, "q": q}
+        try:
+            (_, P), (_, Q) = build_child(p), build_child(q)
+            impl.append((bool(P == Q), bool(Q == P)))
+        except Exception as e:
+            impl.append(None)
+            ctx.counterexample("eq:register:raises:" + type(e).__name__, "== raised %r on second-segment programs" % e, data)
+    lines = ["From Coq Require Import List ZArith Bool.", "Import ListNotations.", "From SFV Require Import C18.Model.", "Definition cases : list (prog * prog) := ["]
+    items = []
+    for p, q in cases:
+        table = {}
+        pid = lambda v: table.setdefault(repr(v), len(table))
+
+        def enc(sp):
+            reg = coq.coq_list(["(%d, true)" % i for i in range(sp["n0"]) if i not in sp["deleted"]])
+            body = enc_prog({"n": 0, "cmds": sp["cmds"]}, pid)
+            return body.replace("(mkProg None [] ", "(mkProg None %s " % reg, 1)
+        items.append("(%s, %s)" % (enc(p), enc(q)))
+    if not items:
+        return
+    lines.append(";\n".join(items) + "].")
+    lines.append("Eval vm_compute in map (fun c => (prog_eq (fst c) (snd c), prog_eq (snd c) (fst c))) cases.")
+    ok, vals, raw = ctx.coq_eval("cases_reg", "\n".join(lines))
+    if not ok:
+        ctx.obligation("correspondence:prog_eq:registers", False, raw)
+        return
+    for (p, q), ie, me in zip(cases, impl, vals[0]):
+        if ie is None:
+            continue
+        same_reg = p["deleted"] == q["deleted"]
+        ctx.case({"p": p, "q": q, "impl_eq": ie[0]}, nontrivial=not same_reg, bucket="reg-" + ("same" if same_reg else "differ"))
+        data = {"check": "reg", "p": p, "q": q}
+        if tuple(ie) != tuple(me):
+            if ie[0] or ie[1]:
+                try:
+                    a, b = run_child(p), run_child(q)
+                    differ = not sfgen.states_close(a, b, 1e-8)
+                except Exception:
+                    differ = False
+                if differ or ie[0] != ie[1]:
+                    ctx.counterexample("eq:register", "Program.__eq__ reports equal for the same commands on registers %s and %s (different subsystems): the states differ" % (
+                        [i for i in range(p["n0"]) if i not in p["deleted"]], [i for i in range(q["n0"]) if i not in q["deleted"]]), data)
+                    continue
+            ctx.disagreement("corr:eq:register", "model prog_eq %s vs implementation %s on second-segment programs" % (list(me), list(ie)), data)
+
+
 def replay(ctx, data):
     d = data["data"]
     p, q = d["p"], d["q"]
+    if d.get("check") == "ff":
+        r = ff_judge(p, q)
+        print("feed-forward pair:", r)
+        return r[0] == "raises" or bool((r[1] or r[2] or r[3]) and r[4])
+    if d.get("check") == "reg":
+        (_, P), (_, Q) = build_child(p), build_child(q)
+        r = bool(P == Q) or bool(Q == P)
+        differ = not sfgen.states_close(run_child(p), run_child(q), 1e-8)
+        print("reported equal:", r, "states differ:", differ)
+        return bool(r and differ)
     P, Q = sfgen.build_program(p), sfgen.build_program(q)
     if d.get("check") == "eq":
         r = bool(P == Q) or bool(Q == P)
